@@ -89,6 +89,17 @@ def inputs(rng, quick=True):
             add('cross-%d-%d' % (off, run),
                 norun(rng, off) + b'\x07' * run + norun(rng, 50000),
                 'boundary-run')
+    # the same with the RLE alignment shifted by -2..+2 at the chunk edge
+    # (a run of 7 saves 2 bytes, 6 saves 1, 4 costs 1, two runs of 4 cost 2),
+    # so that the pending run meets 0, 1, 2, 3 free bytes in the block
+    for sh, pre in ((-2, b'x' * 7), (-1, b'x' * 6), (1, b'x' * 4),
+                    (2, b'xxxxyyyy')):
+        for off in (99997, 99998, 99999):
+            for run in (4, 5, 9):
+                body = norun(rng, off - len(pre) - 1)
+                add('shift%+d-%d-%d' % (sh, off, run),
+                    pre + b'\x01' + body + b'\x07' * run + norun(rng, 30000),
+                    'boundary-run-shifted')
     # blocks that fill by RLE-expansion inside a chunk: runs of exactly 4
     # cost 5 bytes, so 100000 input bytes need > 100000 RLE bytes
     add('runs-of-4', b''.join(bytes([i & 0xff]) * 4
